@@ -140,6 +140,27 @@ theorem frame_makePublic (s : State) (e : Nat) : Frame s (makePublic s e).1 := b
     · exact Frame.refl s
     · exact frame_setPublicKey s e
 
+theorem frame_removeOldPublic (s : State) (e : Nat) (a b : Bool) : Frame s (removeOldPublic s e a b) := by
+  unfold removeOldPublic
+  dsimp only
+  split
+  · split
+    · split
+      · exact frame_find s
+      · exact (frame_find s).trans (frame_release _ _ true)
+    · exact frame_find s
+  · exact frame_find s
+
+theorem frame_applyReuse (s : State) (e : Nat) (d : Reuse) : Frame s (applyReuse s e d) := by
+  unfold applyReuse
+  split
+  · exact frame_releaseRequest s e false
+  · exact frame_releaseRequest s e true
+  · dsimp only
+    split
+    · exact frame_makePublic s e
+    · exact (frame_makePublic s e).trans (frame_releaseRequest _ e true)
+
 /-- entry lookups across a frame step -/
 theorem Frame.entry_some {s s' : State} (h : Frame s s') {e : Nat} {ent' : Entry} (he : s'.entries e = some ent') :
     ∃ ent, s.entries e = some ent ∧ ent'.core = ent.core := by
